@@ -81,6 +81,8 @@ ASSIGNMENTS_ORDER3 = [
     "a(i) = B(i,j,k) * C(j,k)",
     "A(i,j,k) = B(i,j) * c(k)",
     "a() = B(i,j,k)",
+    "y(i) = A(i,j,k) * B(k,j)",
+    "B(i,k,j) = A(i,j,k)",
 ]
 
 
